@@ -70,6 +70,9 @@ pub trait RichField: Sized + Copy {
         ensures r.fv() == (x as int) % P();
     fn to_canonical_u64(&self) -> (r: u64)
         ensures r as int == self.fv(), (r as int) < P();
+    // plonky2 field/types.rs PrimeField64::to_noncanonical_u64: the stored representative — some u64 congruent to the value, NOT reduced
+    fn to_noncanonical_u64(&self) -> (r: u64)
+        ensures (r as int) % P() == self.fv();
 }
 /// to_canonical_u64 exists for every field value, so fv() is a canonical u64
 pub proof fn lemma_fv_range<FF: RichField>(f: FF)
